@@ -97,6 +97,11 @@ class Model:
         self.functions: Dict[str, FuncInfo] = {}
         self.files: List[str] = []
         self._load()
+        # names that are methods of some in-repo class (and properties of none): `x.replace(a=v).m` is the bound method of the *changed* object
+        props = {n for c in self.classes.values() for n in c.properties}
+        fields = {f for c in self.classes.values() for f in c.fields}
+        from . import terms as _T
+        _T.METHOD_NAMES = {fi.name for fi in self.functions.values() if fi.cls and fi.parent is None} - props - fields
 
     # ------------------------------------------------------------------ loading
     def _load(self):
